@@ -405,6 +405,12 @@ def handle_token(state, token):
     elif typ in token_map:
         state["last"] = token
         yield _new_token(token_map[typ], st, token.start)
+    elif not pymode:
+        # subprocess mode: a run of characters the tokenizer has no token type
+        # for (e.g. a word that starts with a superscript or a non-ASCII
+        # digit) is still part of a word
+        state["last"] = token
+        yield _new_token("NAME", st, token.start)
     else:
         m = f"Unexpected token: {token}"
         yield _new_token("ERRORTOKEN", m, token.start)
